@@ -38,7 +38,7 @@ Proof.
 Qed.
 
 Section WithNodes.
-Variable nodes : list (nat * nat).
+Variable nodes : cfg0.
 Local Notation SAFE := (SAFE nodes).
 
 Definition SAFEm {R} (t : nat) (p : prog R) (lv : lview2) : Prop := forall lv', vle2 lv lv' -> SAFE t p lv'.
@@ -314,10 +314,10 @@ Proof.
 Qed.
 
 Lemma Sm_emit_res {R} t o ra b (k : prog R) lv :
-  vst (fst lv) = @Linearized SetSpec o (RBool (ra =? 1)) -> xwatch (snd lv) = None ->
+  cok (fst (op_code o)) = true -> vst (fst lv) = @Linearized SetSpec o (RBool (ra =? 1)) -> xwatch (snd lv) = None ->
   SAFEm t k (set_st2 lv (@Idle SetSpec) None) -> SAFEm t (Emit (ev_res ra b) k) lv.
 Proof.
-  intros Hst Hw Hk lv' Hle. apply S_emit_res with (o := o); [rewrite (vle2_st _ _ Hle); exact Hst|rewrite (vle2_w _ _ Hle); exact Hw|].
+  intros Hc Hst Hw Hk lv' Hle. apply S_emit_res with (o := o); [exact Hc|rewrite (vle2_st _ _ Hle); exact Hst|rewrite (vle2_w _ _ Hle); exact Hw|].
   apply Hk. now apply vle2_set_st2.
 Qed.
 
